@@ -25,7 +25,20 @@ inductive NodeState | babbling | catchingUp | joining | leaving | shutdown | sus
 deriving Repr, DecidableEq, Inhabited
 
 /-- steps of `core.fastForward` / `node.fastForward`, in source order (fact F6) -/
-inductive FFStep | restore | peerSetFromFrame | checkBlock | frameHashCompare | reset | setPeers | other (name : String)
+inductive FFStep
+  | structure          -- checkFastForwardInput: null / truncated elements
+  | checkBlock         -- Hashgraph.CheckBlock: peer-set hash, +1/3 distinct valid signatures
+  | frameHashCompare   -- frame.Hash() against block.FrameHash()
+  | trustedSigner      -- checkTrustedSigner: a valid signature from a known validator
+  | check              -- the whole of checkFastForward (no side effects)
+  | restore            -- proxy.Restore(snapshot)
+  | reset              -- Hashgraph.Reset
+  | setPeers
+  | coreFF             -- core.fastForward
+deriving Repr, DecidableEq, Inhabited
+
+/-- peer-sets a node knows independently of a fast-forward response -/
+inductive TrustSrc | peers | genesis | validators
 deriving Repr, DecidableEq, Inhabited
 
 /-- which validator set `core.fastForward` checks the block's signatures against (fact F7) -/
